@@ -1,4 +1,5 @@
 #![allow(dead_code)]
+mod c03;
 mod c04;
 mod c10;
 mod c16;
@@ -20,6 +21,8 @@ fn main() {
         "builder-record" => c04::cmd_record(rest),
         "shape-compile" => c04::cmd_shape_compile(rest),
         "onoff" => c04::cmd_onoff(rest),
+        "intops-replay" => c03::cmd_replay(rest),
+        "intops-record" => c03::cmd_record(rest),
         "c16-replay" => c16::cmd_replay(rest),
         "c16-products" => c16::cmd_products(rest),
         "compile-one" => corpus::cmd_compile_one(rest),
